@@ -691,8 +691,11 @@ class Models:
         for k in range(4): sm.data[i + k] = bs[k]
         return None
 
-    def x_vf_stream_pos(s, st, stack, work, args, ins):
+    def x_vf_istream_pos(s, st, stack, work, args, ins):
         return st.streams[args[0].obj].pos
+
+    def x_vf_istream_nreads(s, st, stack, work, args, ins):
+        return st.streams[args[0].obj].nreads
 
     def x_vf_stream_state(s, st, stack, work, args, ins):
         sm = st.streams[args[0].obj]
